@@ -89,6 +89,10 @@ structure Config where
   defaultIndent : Nat
   /-- `DiffXWriter.DEFAULT_ENCODING` -/
   defaultEncoding : Name
+  /-- model switch, `false` for the code as it is: when `true` the reader
+  rejects a content section whose declared `length` exceeds the bytes present
+  (the check whose absence is known finding D12; see Properties/C07.lean) -/
+  strictLength : Bool := false
 deriving Repr
 
 /-- LF / CRLF as Python `str` -/
